@@ -129,7 +129,10 @@ the `itemKind`s of its elements -/
 theorem projectColumns_kinded (sl : List DerivedCol) (fields : List Field) (ks : List Kind) (rows : List Row)
     (h : ∀ r ∈ rows, rowHas ks r = true) :
     Wp AnyP (fun p => ∀ r ∈ p.1, rowHas (outKinds sl fields ks) r = true) (projectColumns sl fields rows) := by
-  unfold projectColumns outKinds
+  unfold projectColumns
+  split
+  · trivial
+  unfold outKinds
   split
   · exact h
   · apply Wp.bind (Wp.any _)
@@ -200,9 +203,9 @@ theorem aggCell_kind (K : DerivedCol → Kind) (sl : List DerivedCol)
 which the projected rows are kinded, with COUNT / AVG integer and an expression other than a column of
 the kind `condKind`, the aggregated rows - the input itself, one row per group (the aggregates are
 integers, every other column is read from the first row of the group), or the single row over an empty
-input - are kinded by `K` again -/
+input - are kinded by `K` again (for a select list that does not start with `*`: the rows are projected) -/
 theorem aggregateRows_kinded (K : DerivedCol → Kind) (sl : List DerivedCol) (groupBy : List ColRef)
-    (rows : List Row)
+    (rows : List Row) (hs : isStar sl = false)
     (hagg : ∀ d ∈ sl, (∃ c, d.item = .count c) ∨ (∃ c, d.item = .avg c) → K d = .int)
     (hexpr : ∀ d ∈ sl, ∀ c, d.item = .expr c → (∀ cr, c ≠ .val (.col cr)) → K d = condKind c)
     (hrows : ∀ r ∈ rows, rowHas (sl.map K) r = true) :
@@ -235,6 +238,7 @@ theorem aggregateRows_kinded (K : DerivedCol → Kind) (sl : List DerivedCol) (g
         · trivial
     · apply Wp.bind (Wp.any _)
       intro idxs _
+      rw [if_neg (by rw [hs]; exact Bool.false_ne_true)]
       refine (mapX_wp (fun _ (r' : Row) => rowHas (sl.map K) r' = true) _ _ ?_).mono
         (fun out hout r hr => by obtain ⟨_, _, hk⟩ := hout.2 r hr; exact hk) (fun _ e => e)
       intro g hg
